@@ -297,14 +297,25 @@ def call(clauses, cfg):
     _TAP["learned"] = []
     _TAP["calls"] = 0
     kw = {k: v for k, v in cfg.items() if v is not None and not k.startswith("_")}
+    form = kw.pop("input_form", "lists")
     alarm_s, fuel = cfg.get("_guard", (2.0, 20_000_000))
+
+    def argument():
+        # how the caller hands the clauses over: fresh lists, tuples, or lists in which equal clauses are one shared
+        # object (what `[c] * 2` or appending the same list twice produces)
+        if form == "tuples":
+            return tuple(tuple(c) for c in clauses)
+        if form == "shared":
+            pool = {}
+            return [pool.setdefault(tuple(c), list(c)) for c in clauses]
+        return [list(c) for c in clauses]
 
     def run():
         _TAP["learned"] = []
         _TAP["calls"] = 0
         _TAP["reductions"] = 0
         try:
-            return solve_sat([list(c) for c in clauses], **kw), None
+            return solve_sat(argument(), **kw), None
         except Exception as ex:  # noqa: BLE001
             return None, f"raised {type(ex).__name__}: {ex}"
 
@@ -405,6 +416,40 @@ def _formula_cfg_chunk(params, lo, hi):
         run_case(pid, f, cfg, r, cache)
         if len(r["samples"]) < 1 and idx == lo:
             r["samples"].append({"clauses": [list(c) for c in f], "config": {k: v for k, v in cfg.items() if v is not None and not k.startswith("_")}})
+        if len(r["violations"]) >= 40 or r["counters"]["hangs"] >= 2:
+            r["capped"] = True
+            break
+    return r
+
+
+ALIAS_HEADS = tuple(tuple(v * sg for v, sg in zip((1, 2, 3), signs)) for signs in itertools.product((1, -1), repeat=3))
+ALIAS_CFGS = (
+    {"input_form": "shared"},
+    {"input_form": "shared", "solution_limit": 100},
+    {"input_form": "tuples"},
+    {"input_form": "shared", "assumptions": [4]},
+)
+
+
+def _alias_chunk(params, lo, hi):
+    """a three-literal clause over variables 1..3 listed twice as ONE list object (or everything as tuples), followed
+    by every set of <=3 clauses of length 2..3 over 4 variables. index = (formula*8 + head)*|cfgs| + cfg"""
+    pid = params
+    rest = formula_list(4, 3, 0, 3, 2)
+    r = new_result()
+    cache = {}
+    cur = None
+    for idx in range(lo, hi):
+        cfg = ALIAS_CFGS[idx % len(ALIAS_CFGS)]
+        k = idx // len(ALIAS_CFGS)
+        head = ALIAS_HEADS[k % 8]
+        f = (head, head) + rest[k // 8]
+        if cur != k:
+            cur = k
+            cache = {}
+        run_case(pid, f, cfg, r, cache)
+        if len(r["samples"]) < 1 and idx == lo:
+            r["samples"].append({"clauses": [list(c) for c in f], "config": dict(cfg)})
         if len(r["violations"]) >= 40 or r["counters"]["hangs"] >= 2:
             r["capped"] = True
             break
@@ -674,6 +719,7 @@ def make_jobs(pid, tier, seed):
         )
     )
     sp = special_cases()
+    jobs.append(Job("aliased_duplicate_clause", len(formula_list(4, 3, 0, 3, 2)) * 8 * len(ALIAS_CFGS), _alias_chunk, pid, describe="a ternary clause listed twice as one shared list object (and the tuple form) + every set of <=3 clauses of length 2-3 on 4 variables"))
     jobs.append(Job("special_empty", len(sp), _explicit_chunk, (pid, sp), describe="empty formula, empty clause, single units x assumptions"))
     st = structured_cases(tier)
     jobs.append(Job("structured", len(st), _explicit_chunk, (pid, st), chunk=max(1, len(st) // 256), describe="pigeonhole (all renamings of PHP(3,2)), parity chains, assumptions on n-rooks"))
